@@ -739,14 +739,14 @@ func execS(t *testing.T, raw json.RawMessage) *sim.Outcome {
 		o.SimTimeS += sim.SimNow()
 	})
 	if fail != "" {
-		o.Fail("harness.bubble", "bubble", 0, "%s", fail)
+		failBubble(o, fail)
 		return o
 	}
 	if p.Dual && len(p.Faults) == 0 {
 		o2 := &sim.Outcome{}
 		fail := sim.InBubble(t, func() { l2 = runHistory(&p, !p.NoUp, o2, &sig) })
 		if fail != "" {
-			o.Fail("harness.bubble", "bubble", 0, "%s", fail)
+			failBubble(o, fail)
 			return o
 		}
 		o.All = append(o.All, o2.All...)
@@ -805,4 +805,14 @@ func subtractHidden(full, noup []string, hidden map[string]int) []string {
 	}
 	sort.Strings(out)
 	return out
+}
+
+// failBubble classifies the failure of a bubble: a deadlock (every goroutine of the simulated world blocked
+// for ever) means an operation of the code under test never completed.
+func failBubble(o *sim.Outcome, fail string) {
+	if strings.Contains(fail, "deadlock") {
+		o.Fail("any.stalled", "stalled", 0, "the simulated world came to a standstill: an operation never completed (%s)", fail)
+		return
+	}
+	o.Fail("harness.bubble", "bubble", 0, "%s", fail)
 }
